@@ -70,29 +70,45 @@ theorem C14_let_destructuring (env : EnumEnv) (p : Pat) (ty : Ty) (v : Val) (stk
     | some st => some (st.locals, st.stack)) = _
   rw [h]; simp
 
-/-- **The match takes the first matching arm and binds through it** (`_partial`: arms without
-    or-patterns, scrutinee type not `void`).  For every arm list of well-typed or-free patterns and
-    every well-typed value whose first matching arm (in source order, `List.findIdx?` over `pmatch`)
-    is `k`: the code of `ExprKind::Match`, run with the scrutinee on top of any stack `stk`, enters
-    the body of arm `k` (and of no other arm), with exactly the variables of arm `k` bound to the
-    corresponding components, and leaves `stk` as it found it.
-
-    What is missing for the full statement: arms WITH or-patterns.  For those the per-pass
-    theorems `C14_patCompare_correct` / `C14_patBind_correct` hold for every decision set, but the pass
-    structure of the arm loop (`armPasses`, shared `or_pat_decisions`) is not connected to `pmatch` here,
-    and for two or-patterns side by side the full statement is FALSE on the code as it is
-    (`C14_match_selects_first_counterexample`, known finding D27). -/
-theorem C14_match_selects_first_partial (env : EnumEnv) (ty : Ty) (arms : List Pat) (v : Val) (stk : List SVal)
-    (hnv : ty.isVoid = false) (harms : ∀ p ∈ arms, orCount p = 0 ∧ patTyped env p ty = true)
-    (hv : hasTy env v ty = true) (k : Nat) (hk : arms.findIdx? (fun p => pmatch p v) = some k) :
+/-- **The match as the code is** (every arm list, any or-patterns): the `ExprKind::Match` code enters
+    the body of the FIRST PASS, in emission order, whose selected alternative (`passPat`) matches the
+    value — and of no other pass —, binds exactly the variables of that alternative to their
+    components, and leaves the stack below the scrutinee as it found it.  The passes are those of the
+    arm loop with its shared `or_pat_decisions` set (`allPasses`). -/
+theorem C14_match_takes_first_pass (env : EnumEnv) (ty : Ty) (arms : List Pat) (v : Val) (stk : List SVal)
+    (hnv : ty.isVoid = false) (harms : ∀ p ∈ arms, patTyped env p ty = true) (hv : hasTy env v ty = true)
+    (r : Nat) (x : Pass)
+    (hr : (allPasses env ty 0 arms 0 []).findIdx? (fun x => pmatch (passPat env ty arms x) v) = some r)
+    (hx : (allPasses env ty 0 arms 0 [])[r]? = some x) :
     runMatch env ty arms v stk =
-      some (some k, some k, (bindingsOf env ty (arms.getD k .wild) v).reverse, stk) :=
-  runMatch_orfree env ty arms v stk hnv harms hv k hk
+      some (some x.1, some r, (bindingsOf env ty (passPat env ty arms x) v).reverse, stk) :=
+  runMatch_general env ty arms v stk hnv harms hv r x hr hx
 
--- OPEN: C14_match_selects_first — the same conclusion for arms with or-patterns (at most one or-chain
--- per arm; arm taken = first arm whose pattern matches, variables bound through the first matching
--- alternative).  Checked by the correspondence on every run (or-patterns with and without bindings are
--- in the generator's main stream); not proved.
+/-- **The match takes the first matching arm and binds through its first matching alternative**
+    (`_partial`: every arm is an or-chain `a | b | c` of or-free alternatives — an arm without
+    or-patterns is the chain of length one —, scrutinee type not `void`).  For every such arm list of
+    well-typed patterns and every well-typed value whose first matching arm (source order,
+    `List.findIdx?` over `pmatch`) is `k`: the code enters a body of arm `k` and of no other arm, with
+    the variables bound as `bindingsOf` says (an or-pattern binds through its first alternative that
+    matches), and leaves `stk` untouched.
+
+    What is missing for the full statement: or-patterns NESTED inside tuple/struct/variant patterns.
+    For those `C14_match_takes_first_pass` says what the code does (first matching pass), but the passes
+    are not connected to `pmatch` of the whole arm here; with two or-patterns side by side the full
+    statement is FALSE on the code as it is (`C14_match_selects_first_counterexample`, known finding D27). -/
+theorem C14_match_selects_first_partial (env : EnumEnv) (ty : Ty) (arms : List Pat) (v : Val) (stk : List SVal)
+    (hnv : ty.isVoid = false) (harms : ∀ p ∈ arms, patTyped env p ty = true) (hch : ∀ p ∈ arms, isChain p)
+    (hv : hasTy env v ty = true) (k : Nat) (hk : arms.findIdx? (fun p => pmatch p v) = some k) :
+    ∃ r, runMatch env ty arms v stk =
+      some (some k, some r, (bindingsOf env ty (arms.getD k .wild) v).reverse, stk) :=
+  runMatch_chain env ty arms v stk hnv harms hch hv k hk
+
+/-- arms without or-patterns are chains -/
+theorem C14_orfree_is_chain {p : Pat} (h : orCount p = 0) : isChain p := isChain_orfree h
+
+-- OPEN: C14_match_selects_first — the same conclusion for arms with or-patterns nested inside
+-- constructor patterns (at most one or-chain per arm).  Checked by the correspondence on every run
+-- (nested or-patterns with and without bindings are in the generator's main stream); not proved.
 
 def d27Ty : Ty := .tuple [.int, .int]
 def d27Arms : List Pat := [.tuple [.or (.int 1) (.int 2), .or (.int 3) (.int 4)], .wild]
@@ -114,6 +130,8 @@ def exArms14 : List Pat :=
   [.tuple [.variantPos 0 0 (.bind 0), .bool true], .tuple [.variant0 0 1, .bind 1], .tuple [.wild, .wild]]
 
 example : (∀ p ∈ exArms14, orCount p = 0 ∧ patTyped Abra.PatMatrix.exEnv p Abra.PatMatrix.exTy = true) ∧
+    (∀ p ∈ exArms14 ++ [Pat.or (.tuple [.wild, .bool true]) (.or (.tuple [.wild, .bool false]) .wild)],
+      ∀ q ∈ alts p, orCount q = 0) ∧
     hasTy Abra.PatMatrix.exEnv (.prod [.variant 1 (.prod []), .bool false]) Abra.PatMatrix.exTy = true := by
   decide +kernel
 
